@@ -440,16 +440,15 @@ func CompareImpl(a, b *ImplRun, ignoreLines bool) *Diff {
 	return nil
 }
 
-// ResourceAbort reports whether the model gave up for a resource reason
-// (steps, depth, string size): the model then cannot vouch that the program
-// terminates within reasonable bounds and the implementation is not run on it.
+// ResourceAbort reports whether the implementation must not be run on a
+// program the model gave up on. That is every abort: a model that stopped
+// early - for a resource reason (steps, depth, string size) or because a value
+// left its compared domain - has not executed the rest of the program and so
+// cannot vouch that it terminates within reasonable time and memory (a
+// thorough C01 run met a program that triples a string 30 times behind a
+// "sign of zero" abort: 2.5 GB in the implementation, worker dead).
 func ResourceAbort(reason string) bool {
-	for _, k := range []string{"budget", "depth", "overflow", "too long", "too many"} {
-		if strings.Contains(reason, k) {
-			return true
-		}
-	}
-	return false
+	return reason != ""
 }
 
 // CanonValue renders a value with the run's identity map (for property-specific host functions).
